@@ -151,8 +151,10 @@ def run(ck):
              "1 1 2 30000 | main=restart,restart,join ; s1=sleep:400,fut:1:n",
              "1 2 2 30000 | main=stop,join ; s1=try:1:l,try:2:l",
              "1 2 2 30000 | main=join,stop ; s1=try:1:l,fut:2:l ; s2=try:3:n"]
-    for i in range(2400 if thorough else 150):
-        for p in EXTRA:
+    # (executions of these programs cost a fraction of a millisecond each; the window of the long-task program - the spawner
+    # held between creating and registering its worker until stop() has set the shutdown flag - is hit about once in 200)
+    for p, n in zip(EXTRA, (150, 150, 3000, 600)):
+        for i in range(n * 4 if thorough else n):
             lines.append("%s | %s %d" % (p, "random" if i % 3 else "randomt", ck.seed * 4127 + i))
     cp = os.path.join(ck.work, "cases.txt")
     open(cp, "w").write("\n".join(lines) + "\n")
